@@ -109,6 +109,10 @@ func verifyProof(persistTrie *PersistTrie, block uint64, ind *int) (Node, []byte
 	if *ind >= len(persistTrie.Pairs) {
 		return nil, nil, errors.New("index out of bounds")
 	}
+	if persistTrie.Pairs[*ind] == nil {
+		// a CBOR null inside the pairs array decodes to a nil pair
+		return nil, nil, errors.New("invalid pair")
+	}
 
 	node, err := DeserializeNode(persistTrie.Pairs[*ind].Value)
 	if err != nil {
